@@ -93,7 +93,15 @@ Definition add_finals (g : grammar) (a : automaton) : automaton * list Z (* fina
   let '(a1, lasts) := fold_left (fun (acc : automaton * list Z) (x : Z * (Z * bool)) =>
       let '(a, lasts) := acc in let '(i, inp) := x in
       match trans_target a i (fst inp) with
-      | Some t => (a, lasts ++ [t])
+      | Some t =>
+          (* the accepting state must not be entered from anywhere else: the start state gets a private copy *)
+          if existsb (fun '(f, _, t') => (t' =? t) && negb (f =? i)) (a_trans a) then
+            let c := Z.of_nat (length (a_states a)) in
+            let st := nth (Z.to_nat t) (a_states a) (mkState [] None 0) in
+            let redirected := map (fun '(f, s, t') => if (f =? i) && (t' =? t) then (f, s, c) else (f, s, t')) (a_trans a) in
+            let copied := flat_map (fun '(f, s, t') => if f =? t then [(c, s, t')] else []) (a_trans a) in
+            (mkAut (a_states a ++ [st]) (redirected ++ copied), lasts ++ [c])
+          else (a, lasts ++ [t])
       | None => let t := Z.of_nat (length (a_states a)) in
                 (mkAut (a_states a ++ [mkState [] (Some (-1 - i)) 1]) (a_trans a ++ [(i, fst inp, t)]), lasts ++ [t])
       end) (combine (zrange (Z.of_nat (length (g_inputs g)))) (g_inputs g)) (a, ([] : list Z)) in
